@@ -321,11 +321,23 @@ def enc_kwargs(kw):
     return ','.join('%s=%s' % (hs(k), enc_val(v)) for k, v in sorted(kw.items()))
 
 
+def float_inexact(text):
+    """the mask text of a `float` wildcard lies outside the domain in which the Lean model computes
+    `float(text)` itself (Model/RouterBuiltinEnv.lean: exactDec): its value is shipped under
+    (filter, that text) for the `…b` driver lines"""
+    from harness.tables.routerbuiltin import rb_exact_float_text
+    try:
+        return not rb_exact_float_text(text)
+    except ValueError:
+        return True
+
+
 class Runner:
     """plays ops on a fresh application object; `line()` is the protocol line, `answers` the
     implementation's answers token by token"""
 
     ENV_CAP = 600
+    histb = False            # render the history as `router histb` (built-in handlers computed by the model)
 
     def __init__(self):
         from ombott.ombott import Ombott
@@ -388,6 +400,10 @@ class Runner:
                         entries.append('%s:%s=%s:%d:%s' % (hs(fk), hs(s), enc_val(v), n, '~' if sel is None else sel))
                         if sel is not None:
                             todo.append(str(sel) + s[n:])
+                        if fk.startswith('float(') and n < len(s) and (fk, s[:n]) not in seen and float_inexact(s[:n]):
+                            # `float(text)` of a numeral the model does not convert itself
+                            seen.add((fk, s[:n]))
+                            entries.append('%s:%s=%s:%d:~' % (hs(fk), hs(s[:n]), enc_val(v), n))
         return entries
 
     @staticmethod
@@ -507,7 +523,7 @@ class Runner:
         self.answers.append('ok')
 
     def line(self):
-        return 'router hist ' + ' '.join(self.ops)
+        return ('router histb ' if self.histb else 'router hist ') + ' '.join(self.ops)
 
     def answer(self):
         return ' '.join(self.answers)
